@@ -12,6 +12,10 @@ KnownIds == {"C05-KF1", "C05-KF2", "C05-KF3", "C05-KF4", "C05-KF5", "C05-KF6", "
 
 AllFalse(s) == \A i \in 1..Len(s) : s[i] = FALSE
 U_(subj) == subj.universe
+(* every event of the harness except a panic carries the harness's own call counters ctr =     *)
+(* [ins_ok: keys passed to successful inserts since the last build, built: a build_from_keys   *)
+(* succeeded in this run, iab: keys inserted since that build]                                 *)
+HasCtr(e) == "ctr" \in DOMAIN e
 
 (* C05-KF1: ZiporaTrie::remove is implemented for the Patricia strategy only; for every    *)
 (* other strategy it is a stub that returns Ok(false) and removes nothing.                  *)
@@ -60,7 +64,7 @@ KF4(e, subj) == IF G4(e, subj) THEN UNCHANGED S ELSE FALSE
 (* SimpleDawg::insert increment the key counter also when the key is already present.          *)
 CountsCalls == {"par", "dawg", "sdawg"}
 (* a NestedTrieDawg::new() on which no build_from_keys has succeeded yet has no root (C05-KF6) *)
-Unrooted(e, subj) == subj.fam = "dawg" /\ subj.variant = "nested_new" /\ ~e.ctr.built
+Unrooted(e, subj) == subj.fam = "dawg" /\ subj.variant = "nested_new" /\ HasCtr(e) /\ ~e.ctr.built
 G5(e, subj) ==
     /\ subj.fam \in CountsCalls /\ ~Unrooted(e, subj)
     /\ \/ /\ e.op = "probe" /\ e.len = e.ctr.ins_ok /\ e.len > Cardinality(S)
@@ -98,7 +102,7 @@ LpSupOK(q, r) ==
     LET c == LongestPrefixOf(q) IN
     /\ c /= None => (r /= None /\ r[1] >= c[1])
     /\ r /= None => (r[1] \in 0..Len(q) /\ (Take(q, r[1]) \in S \/ InSplice(Take(q, r[1]))))
-AfterBuildInsert(e) == e.ctr.built /\ e.ctr.iab > 0
+AfterBuildInsert(e) == HasCtr(e) /\ e.ctr.built /\ e.ctr.iab > 0
 G7(e, subj) ==
     LET U == U_(subj) IN
     /\ subj.fam = "dawg"
